@@ -4,7 +4,7 @@ import json
 import wcag_ref
 from common import proof_status
 from opt_common import gen_caf_cases, gen_pairs, correspond_caf, isoluminant_pair, order_disagree_pair, pool, thresholds, w_api
-from spellings import OPAQUE_KINDS, TRANSLUCENT_KINDS, spell
+from spellings import OPAQUE_KINDS, TRANSLUCENT_KINDS, alpha_of, composite, spell
 
 MATCHERS = {}
 
@@ -61,19 +61,26 @@ def check(run):
                 run.hit("text_equals_bg")
         run.sample({"check_and_fix_contrast": list(cases[0]), "impl": list(impl[0])})
         pairs, _ = gen_pairs(run.rng, n_api)
-        api_cases = []
+        api_cases, api_truth = [], []
         for (t, b) in pairs:
             ts, tk = spell(run.rng, t, run.rng.choice(OPAQUE_KINDS + TRANSLUCENT_KINDS))
             bs, bk = spell(run.rng, b, run.rng.choice(OPAQUE_KINDS))
             api_cases.append((ts, bs, run.rng.randrange(2), run.rng.choice([0, 1, 1, 2]), run.rng.randrange(2)))
+            api_truth.append((tuple(t), tuple(b), alpha_of(ts, tk)))
             run.hit("spelling." + tk)
         res = p.map(w_api, api_cases, chunksize=4)
-        for r in res:
+        for r, (t0, b0, a0) in zip(res, api_truth):
             case = r["case"]
             if "raise" in r:
                 run.violation("make_readable raised on a parseable pair", case, got=r["raise"])
                 continue
             if "invalid" in r:
+                continue
+            # the "original text colour (after compositing any transparency)" is established independently of the library
+            want_t = composite(t0, a0, b0)
+            if tuple(r["b"]) != tuple(b0) or max(abs(x - y) for x, y in zip(r["t"], want_t)) > 1:
+                run.violation("the colour the pair takes as its original text colour is not the text composited over the pair's own background",
+                              case, got=list(r["t"]), expected=list(want_t), background=list(b0), alpha=a0)
                 continue
             out = r["out"]
             rb = out if isinstance(out, tuple) else r.get("rb_css")
